@@ -70,7 +70,7 @@ def WF (w : World) : Prop := ∀ key s, lookupSess w.sess key = some s → WFS s
 def Entry.permits (e : Entry) (msg : Msg) : Prop :=
   e.wildcard = true ∨
   (e.route = msg.route ∧ e.type = msg.type ∧
-    (e.path = "" ∨ ∃ p, msg.pkgPath = some p ∧ (p = e.path ∨ p.startsWith (e.path ++ "/") = true)))
+    (e.path = "" ∨ ∃ p, msg.pkgPath = some p ∧ (p = e.path ∨ hasPrefix p (e.path ++ "/") = true)))
 
 /-- a message is within a grant: never an auth message or `vm/add_package`, and permitted by
     one of the (well-formed) allow-list entries -/
